@@ -99,25 +99,37 @@ def branch_counters(ctx, stream):
     if not (os.path.exists(g) and os.path.exists(impl)):
         return
     ops, out = ctx.read_lines(g), ctx.read_lines(impl)
+    seen_read = False
     for l, o in zip(ops, out):
         f = l.split()
         if not f:
             continue
         op = f[0]
+        if op == "case":
+            seen_read = False
+        if op in ("hc", "aw"):
+            seen_read = True
+        elif seen_read and op in ("pu", "pd", "pa"):
+            # an edit applied to a living world (history)
+            ctx.count("%s.history.edit.%s" % (stream, {"pu": "update", "pd": "delete", "pa": "create"}[op]))
         if op == "pa":
             ctx.count("%s.pa.level.%s" % (stream, "selector" if f[4] not in ("nil", "-") else ("empty-selector" if f[4] == "-" else "ns-or-mesh")))
             ctx.count("%s.pa.mode.%s" % (stream, f[5]))
             if f[6] != "-":
                 ctx.count("%s.pa.port-level" % stream)
-        elif op == "q":
+        elif op == "q" and f[3] != "-":
+            ctx.count("%s.q.waypoint-service-namespace" % stream)
+        if op == "q":
             for m in re.findall(r"Q=(\S+)", o):
                 for e in m.split(","):
                     ctx.count("%s.q.mode.%s" % (stream, e.split(":")[-1]))
         elif op == "chk":
             ctx.count("%s.chk.dr.%s" % (stream, "none" if f[5] == "nil" else ("structured" if "/" in f[5] else "rule-level")))
             ctx.count("%s.chk.result.%s" % (stream, o.split()[0] if o else "?"))
-        elif op == "cl":
-            ctx.count("%s.cl.kind.%s" % (stream, f[4]))
+        elif op in ("cl", "hc"):
+            if op == "hc":
+                ctx.count("%s.hc.reads" % stream)
+            ctx.count("%s.cl.kind.%s" % (stream, f[4].split(":")[0]))
             ctx.count("%s.cl.port.%s" % (stream, f[5]))
             ctx.count("%s.cl.outcome.%s" % (stream, " ".join(o.split()[:2])))
         elif op == "ils":
@@ -150,6 +162,8 @@ def branch_counters(ctx, stream):
             ctx.count("%s.cv.result.%s" % (stream, "nil" if o == "nil" else "+".join(sorted(set(re.findall(r"np|ndp|dp", o)))) or "other"))
         elif op == "aw":
             ctx.count("%s.aw.kind.%s" % (stream, f[1]))
+            if f[1] == "we" and f[4] != "-" and f[3] != f[4]:
+                ctx.count("%s.aw.we.spec-and-metadata-labels-differ" % stream)
             ctx.count("%s.aw.keys.%s" % (stream, "none" if o == "K=-" else ("static" if "static_strict" in o else "converted")))
         elif op == "aq":
             k = re.search(r"K=(\S+)", o)
@@ -179,8 +193,14 @@ def run(ctx):
                 "Sidecar whose ingress listeners (some with user TLS, some bound to their port, with or without listener merge) replace "
                 "the service chains; and the composed client decision end to end on real CDS / EDS / LDS for 16 kinds of service and "
                 "client (ServiceEntry or Kubernetes Service, targetPort differing from port, gateway client, auto-mTLS off, no sidecar, "
-                "mesh-external, passthrough, DestinationRule modes and subsets). Plus the 16 (mode, protocol) rows of the real "
-                "filter-chain table; distinct = hash of (ops, implementation outputs); non-trivial = at least one policy")
+                "mesh-external, passthrough, DestinationRule modes and subsets, a client that may send HBONE as in an ambient-enabled mesh, two "
+                "endpoints with different labels in one cluster). HISTORY: one inbound case in eight keeps ONE FakeDiscoveryServer, "
+                "client and server proxy for the whole case (op hc) and applies 2-4 PeerAuthentication updates / creates / deletes through "
+                "its config store (real config handler -> ConfigUpdate -> debounce -> updateContext, then computeProxyState and "
+                "ProxyNeedsPush per proxy), re-reading CDS / EDS / LDS after each; the ambient index of an aw case lives for the rest of "
+                "the case too, edits go through the kube client and the same workload is read again. Plus the 16 (mode, protocol) rows "
+                "of the real filter-chain table, proved equal to the model (4 of them for mode UNKNOWN, which no resolver returns: the "
+                "chains oracle judges the other 12); distinct = hash of (ops, implementation outputs); non-trivial = at least one policy")
     ctx.assumptions = [
         "UniqueKeys: (namespace, name) identifies a PeerAuthentication (true for Kubernetes resources)",
         "AllPortsNodup: the port-level settings of a policy are a map (true for the API type: portLevelMtls is a map)",
@@ -200,6 +220,18 @@ def run(ctx):
         "first transport_socket_match wins); the ALPN / TLS behaviour of the ten client kinds is written from documentation; ztunnel "
         "evaluates Authorization policies as documented (groups OR, rules AND, matches OR, DENY wins): Lean / Go definitions, "
         "no data-plane binary is run",
+        "history: what is kept across an edit is one client and one server proxy of one FakeDiscoveryServer and one ambient index; "
+        "edits are PeerAuthentication create / update / delete only (the refresh after Service, Sidecar, DestinationRule or mesh-config "
+        "changes and the xDS connection that carries the push are other properties' subject); every other op builds its world fresh",
+        "cl / hc run with the ambient feature flags off except kind hbone (EnableHBONESend on, endpoint without tunnel support); a cluster "
+        "has one endpoint except kind two (two endpoints with different labels); HBONE-capable endpoints (tunnel metadata) are not driven",
+        "inbound_listener_enforces_per_client / matches_nodup additionally assume TargetsDistinct, TargetsPos, TargetsDeclared for the chain "
+        "configs (proved for what chainConfigs builds: chainConfigs_targets_distinct / _declared; TargetsPos = no service on port 0)",
+        "the fake kube client, the informers and krt behave like the real ones for create / update / delete of the objects used; op aw "
+        "waits for a stable answer (after an edit at most 3 s for one that enforces the specification) - a slower index would be "
+        "reported as stale",
+        "inbound theorems make no claim for the proxy's own ports 15001 / 15006 / 15008 / 15020 / 15021 / 15090 (proxyOwnPorts): "
+        "connections to them never reach virtualInbound",
         "tls_inspector_iff is a statement about the specification of the TLS inspector (enabled iff a chain considered for the port "
         "matches transport protocol tls); buildTLSInspector itself is tied to it by the differential stream only",
     ]
@@ -325,7 +357,8 @@ MANIFEST = {
                    "in the theorems (T-diff only), destination port not 15006, RvDeterminesContent and a collision-free hash for the version "
                    "theorems; full list in the evidence file. Not modelled: buildTLSInspector's predicate construction and the HTTP inspector, TLS "
                    "context contents beyond require_client_certificate + validation context present, the blackhole chain, dual-stack extra "
-                   "addresses, inbound listeners of gateways and waypoints, MUTUAL user TLS. Seven defects of the pinned tree (F2, F3, F10, F11, F12, F14, F15) were repaired by fix: commits; their witnesses stay in "
+                   "addresses, inbound listeners of gateways and waypoints, the proxyless gRPC server's inbound filter chains (grpcgen/lds.go "
+                   "buildInboundFilterChains, a fourth deriver of the mode from the same MTLSSettings: not anchored), MUTUAL user TLS. Seven defects of the pinned tree (F2, F3, F10, F11, F12, F14, F15) were repaired by fix: commits; their witnesses stay in "
                    "the corpus and as ..._witness_unfixed theorems."),
     "technique": ("Lean 4 theorems over an exact model (precedence resolvers, filter-chain table and listener, ambient conversion) + "
                   "differential correspondence with the real Go functions + kernel-checked generated table + independent property oracle"),
